@@ -67,6 +67,8 @@ func checkC04(c *Ctx) {
 	timestampEncoderUTC(c, "R04o")
 	r.Rule("R04p", "integer codecs: no emitted conversion of the field's value changes its sign or narrows it (type-checked shape worlds, every 64-bit kind x cardinality)", 4)
 	checkWorldConversions(c, "R04p")
+	r.Rule("R04q", "a flattened oneof whose variant children share a JSON key with a parent field (plain, proto3-optional, member of another oneof, discriminator) is refused: two fields writing one key cannot round-trip (scenarios shared with C12/R12g)", 5)
+	c12ScenariosRule(c, "R04q", func(fn, rule string) bool { return fn == "validateOneofFlatten" })
 
 	type siteAgg struct {
 		pos  string
